@@ -1,18 +1,29 @@
 from pyvc.table_engine import TableEngine
 ID = "C07"
 LEVEL = "other"
-CONTRACT_MODULES = ["contracts.table_cache"]
-FUNCTIONS = ["Table._make_cache", "Table._get_cache", "Table._get_row_cache", "Table._get_row_cache_raise"]
+CONTRACT_MODULES = ["contracts.table_cache", "contracts.table_setitem"]
+FUNCTIONS = ["Table._make_cache", "Table._get_cache", "Table._get_row_cache", "Table._get_row_cache_raise", "Table.__setitem__", "Table._append_row", "Table._concatenate_table", "Table.__delitem__", "Table.pop"]
 RAC = "rac/c07.py"
 RAC_BUDGET = {"quick": 60, "thorough": 900}
 DESIGN_REF = "DESIGN.md section 4, C07"
 TECHNIQUE = ("contract-based deductive verification of the row-name cache (pyvc: _make_cache builds exactly the scan of the "
              "current index column, _get_cache keeps the class invariant CacheOK, _get_row_cache(_raise) return the scan "
-             "position or None/KeyError; z3) + run-time contracts against a linear-scan oracle after every sequence of API updates")
-TRUSTED = ["numpy-lite model: _data[k] is a read-only column view inside the verified functions; dict keyed by 2-tuples as an "
+             "position or None/KeyError; the mutators Table.__setitem__ (= __setattr__), __delitem__, pop, _append_row, _concatenate_table give "
+             "CacheOK back on every exit: data model with column-wise frame, pyvc/setitem_engine.py; z3) + run-time contracts against a linear-scan oracle after every sequence of API updates")
+TRUSTED = ["mutators: a store into column k yields data whose other columns are unchanged; a store that raises leaves the data unchanged; "
+           "isinstance / hasattr / len / `in self.__dict__` / `in self._col_names` as uninterpreted predicates; callees of __setitem__ "
+           "(_split_name_count_offset, _get_row_indices, __len__) by the weak contract 'requires/ensures CacheOK, modifies the cache "
+           "fields only, may raise' (implied by the proved contracts for _get_cache and _get_row_cache_raise)",
+           "numpy-lite model: _data[k] is a read-only column view inside the verified cache functions; dict keyed by 2-tuples as an "
            "injective pair function; dict.items() as an arbitrary enumeration whose values are read at loop entry; enumerate",
            "numpy itself (array stores, object arrays), Python string methods", "z3 / cvc5"]
 ASSUMPTIONS = [
+    "attribute-style assignment is API for the documented fields only: key not in {_data, _index_cache, _count_cache, _names_cache} "
+    "(precondition api-key of __setitem__); __delitem__/pop: not the index column itself",
+    "spec-function lemma: prefix_count depends on the column content only (induction over its defining equations; stated as an axiom); "
+    "strictness of prefix_count on the rows carrying the name is re-derived from step + monotonicity on every run",
+    "_append_row / _concatenate_table: no claim on an exception raised half way through the column loop (the table is then "
+    "non-rectangular: C14)",
     "names contain no separator substring (:: << >>): _split_name_count_offset is checked at run time only",
     "column arrays are not shared with another table that mutates them in place (row slices and _copy share arrays)",
     "the unique-label array (third result of _make_cache, f-strings) is outside the proved contract; get_index_unique is "
@@ -21,8 +32,8 @@ ASSUMPTIONS = [
     "(prefix counts strictly increase on the rows carrying the name)",
 ]
 BOUNDED = [
-    "class invariant CacheOK across Table.__setitem__/__setattr__/__delitem__/pop/_append_row/_concatenate_table: run-time "
-    "only (all update sequences of length <=2 on all index columns of length <=3/4, cache warmed before each update)",
+    "WHICH cell a write table[col, row] = v reaches (row-designator dispatch in __setitem__): run-time only "
+    "(all update sequences of length <=2 on all index columns of length <=3/4, cache warmed before each update)",
     "_split_name_count_offset (string parsing), __getitem__/__setitem__ row-designator dispatch, __floordiv__, "
     "rows.get_index, cols.get_index_unique: run-time only (all designator spellings, reads and writes)",
 ]
@@ -30,7 +41,10 @@ EXPLANATION = ("proved for every index column, name, count and offset: the cache
                "count-exact w.r.t. a scan (prefix-count specification function), _get_cache establishes/keeps CacheOK, "
                "_get_row_cache returns None iff no row has the name with that occurrence number (negative counts from the "
                "last) and otherwise such a row's position plus the offset, _get_row_cache_raise raises KeyError exactly "
-               "then; the coherence of the cache with later updates is the bounded part")
-LEVEL_TEXT = ("Mixed: the four cache functions are proved (61 obligations, z3); invariant preservation by the mutators and the "
-              "string/tuple designator dispatch are run-time contract checks against a linear-scan oracle. Never claimed as proof.")
+               "then; every mutator of the table gives CacheOK back (on every exit of __setitem__: whenever the index column or `_index` "
+               "may have changed, the lookup tables end up dropped -- before the store when nothing rebuilds them in between, after it "
+               "otherwise -- and a store into any other column leaves them right: column-wise frame); every syntactic store into a "
+               "table's data in the module sits in one of the methods carrying the invariant")
+LEVEL_TEXT = ("Mixed: the four cache functions and the class invariant across the five mutators are proved (z3); which cell a "
+              "write reaches, string parsing and the unique labels are run-time contract checks against a linear-scan oracle. Never claimed as proof.")
 LEVEL_NOTE = "See TRUSTED/BOUNDED in the evidence file."
